@@ -20,6 +20,9 @@ META = {
         'R6': 'decomposition with stored faces (structure): a fan per face — state (face f, corner j) yields the tetrahedron with base (w[0], w[j], w[j+1]), w = face_vertices(f), '
               'all three looked up in the cell\'s vertex list, labelled with faces[f].clipping_plane (the plane all of the face\'s vertices lie in, C15.R7); j runs 1 .. count(f)-2 '
               '(count-2 triangles per face, none skipped or repeated), then the next face starts at j = 1; None exactly when no face is left; the walk starts at (0, 1)',
+        'R7': 'the base triangles handed to a face integral cover the whole surface of the cell (C03.R2): compute_face_integrals reports every plane with a normal inside the active '
+              'subspace; the symmetric variant leaves out exactly the planes whose other side is a constructed lower-index cell without shift — decided as decision tables over '
+              '(valid normal, right present, shift absent, right > idx, mask present, mask[right]); a plane dropped for any other reason leaves the surface open (flux integrals wrong)',
         'R5': 'decomposition without stored faces (structure): every vertex of the cell is visited once, in storage order, and yields exactly six tetrahedra t = 0..5 with base '
               '(proj[t], proj[t-1 mod 6], vertex) and label dual[t div 2], where proj[2i] is the projection of the generator onto plane dual[i] and proj[2i+1] its projection onto the '
               'intersection line of planes dual[i+1] and dual[i]; hence all three base points of a tetrahedron lie in the plane it is labelled with (given C19.R2/R3 and C01.R5)',
@@ -37,7 +40,7 @@ def run(ctx):
     for cfg in ctx.configs_used:
         F = ctx.facts(cfg)
         sfx = '' if cfg == 'default' else '@' + cfg
-        fns = (r1, r2, r3, r4, r5, r6) if cfg == 'default' else (r2,)
+        fns = (r1, r2, r3, r4, r5, r6, r7) if cfg == 'default' else (r2,)
         for fn in fns:
             rule = 'C14.' + fn.__name__.upper()
             ctx.guarded(rule, 'evaluate' + sfx, lambda: fn(ctx, F, rule, sfx))
@@ -492,3 +495,8 @@ def r5_sequential(ctx, F, rule, sfx, new, nxt, no):
                 return {'<': not lhs_len, '<=': not lhs_len, '>': lhs_len, '>=': lhs_len}.get(op, False)
             raise AnalysisIncomplete('iterator state depends on %s' % t_[:100])
         I.write_lv(r.lv, dtab.evaluate(I.read_lv(r.lv), val))
+
+
+def r7(ctx, F, rule, sfx):
+    from . import c03
+    c03.r2(ctx, F, rule, sfx)
